@@ -18,6 +18,7 @@ fn world(flavor: &str, out: &str, clients: usize) -> World {
         validator: ValKind::Always,
         clients,
         start_ms: 100_000,
+        metrics: true,
     };
     World::new(cfg, Trace::create(out))
 }
